@@ -90,13 +90,22 @@ let () =
     | "scan", [_store; period; boxes; _inj; cancel_at] ->
         let st0 = fill boxes in
         let cutoff = z_of_int (- (int_of_string period)) in
-        let cancel = if cancel_at = "-" then 0 else int_of_string cancel_at in
+        (* cancelAt: "-" | "<n>" (RetentionSleep 100 ms: the ctx case is the only ready one at the callback end)
+           | "<n>z" / "<n>n" (RetentionSleep 0 / 1 ns: the expired timer races with ctx.Done, see sc_step) *)
+        let racy = cancel_at <> "-" && (let c = cancel_at.[String.length cancel_at - 1] in c = 'z' || c = 'n') in
+        let cancel = if cancel_at = "-" then 0
+          else int_of_string (if racy then String.sub cancel_at 0 (String.length cancel_at - 1) else cancel_at) in
         (match outs with
          | [order; res; callbacks; eff; d; r] ->
              let ord = if order = "none" then [] else List.map (fun m -> if m = "-" then [] else str_of_field m) (sp ',' order) in
              let (pend, effops) = parse_eff eff in
-             let y = replay cfg (nat_of_int 100000) cutoff (nat_of_int cancel) pend (sys_init ord st0) in
-             let model = [order; "ok"; string_of_int (int_of_nat y.s_visited); eff; dump y.s_st; removed_tok y.s_removed] in
+             let run_extra extra =
+               let y = replay cfg (nat_of_int 100000) cutoff (nat_of_int cancel) (nat_of_int extra) pend (sys_init ord st0) in
+               [order; "ok"; string_of_int (int_of_nat y.s_visited); eff; dump y.s_st; removed_tok y.s_removed] in
+             (* with an expired sleep timer every callback end after the cancellation is a coin flip: the scan may
+                stop there or go on — one alternative per number of callback ends at which the timer wins *)
+             let alts = if racy then List.sort_uniq compare (List.init (List.length ord + 1) run_extra) else [run_extra 0] in
+             let model = [String.concat " || " (List.map (String.concat " ") alts)] in
              (* ---- oracle, on the implementation's observation *)
              let surv = parse_dump d in
              let surv_of mb = try List.assoc mb surv with Not_found -> [] in
@@ -148,7 +157,7 @@ let () =
                    | ["purge"; mb] -> fresh := List.filter (fun (m, _) -> m <> mb) !fresh
                    | _ -> ()) effops;
                  List.iter (fun (mb, k) -> if not (List.mem k (surv_of mb)) then fail "fresh-mail-lost") !fresh;
-                 if cancel > 0 && int_of_string callbacks > cancel then fail "cancel-not-prompt";
+                 if cancel > 0 && not racy && int_of_string callbacks > cancel then fail "cancel-not-prompt";
                  if !bad = "" then "ok" else "fail:" ^ !bad
                end in
              Mlutil.print_model model verdict
